@@ -147,9 +147,26 @@ func genSpecial(r *hx.Rng) []byte {
 	return append(b, hx.Pick(r, tails)...)
 }
 
+// genDegenerate builds `name:value|type[|@rate][|#tags]` with every field drawn from the shortest texts a
+// hand-written fast path could trip over: empty, a lone sign, a lone dot, a lone exponent mark
+func genDegenerate(r *hx.Rng) []byte {
+	short := []string{"-", "+", ".", "e", "-.", "+.", "+e", "-e1", "1e", "--", "+-1", "", "0x", "-0", "1", "0", "-1", "1.", ".5", "E5", "_", "1_", "nan", "-inf"}
+	s := hx.Pick(r, []string{"a", "a", "", "$", "a.b"}) + ":" + hx.Pick(r, short) + "|" + hx.Pick(r, []string{"c", "g", "ms", "s", "h", "", "m"})
+	if r.Bool() {
+		s += "|@" + hx.Pick(r, short)
+	}
+	if r.Bool() {
+		s += "|#" + hx.Pick(r, []string{"", ",", "host", "host:", "a", "a,,b"})
+	}
+	return []byte(s)
+}
+
 func genLine(r *hx.Rng) ([]byte, string) {
 	if r.Chance(1, 12) {
 		return genSpecial(r), "special-prefix"
+	}
+	if r.Chance(1, 8) {
+		return genDegenerate(r), "degenerate-fields"
 	}
 	switch k := r.Intn(20); {
 	case k < 7:
@@ -242,7 +259,10 @@ func compress(enc string, b []byte) []byte {
 	return out.Bytes()
 }
 
-var encodings = []string{"", "identity", "deflate", "lz4", "x-unknown", strings.Repeat("junk/encoding;", 8)}
+var encodings = []string{"", "identity", "deflate", "lz4", "x-unknown", strings.Repeat("junk/encoding;", 8),
+	// unknown encodings around the 64-byte mark of the handler's log truncation, in bytes and in characters
+	strings.Repeat("a", 63), strings.Repeat("a", 64), strings.Repeat("a", 65), strings.Repeat("é", 40), "gzip-" + strings.Repeat("é", 30),
+	strings.Repeat("€", 22), strings.Repeat("é", 70), strings.Repeat("\xff", 70), strings.Repeat("a", 63) + "é"}
 
 func unmarshalOK(path string, b []byte) bool {
 	if path == "e" {
